@@ -15,7 +15,7 @@
 -/
 import Driver.Proto
 import FcModel.Spec.C11
-namespace Fc.Drv
+namespace Fc.Drv.C11
 open Fc
 
 def fstatusName : FStatus → String
@@ -99,4 +99,7 @@ def handleC11 (op : String) : Option (P String) :=
   | "findm" => some opFindm
   | _ => none
 
-end Fc.Drv
+end Fc.Drv.C11
+
+/-- re-export for Driver/Main.lean -/
+def Fc.Drv.handleC11 := Fc.Drv.C11.handleC11
